@@ -15,6 +15,32 @@ def proj_framing(res):
     return 'rejected'
 
 
+def proj_trunc(res):
+    """truncation families of properties whose quantifier names truncations (C13, C14): the value on success, and
+    otherwise whether the parser asks for more input or rejects"""
+    if res.startswith('ok '):
+        return res
+    return 'incomplete' if res.startswith('incomplete') else 'rejected'
+
+
+RECORD_HDR = {'tls_raw': 5, 'tls_encrypted': 5, 'tls_plaintext': 5, 'tls_parser': 5, 'dtls_record': 13}
+
+
+def proj_framing_line(res, line):
+    """proj_framing, with the Needed count kept only where the property fixes it: for the record parsers once the
+    record header is available. Shorter inputs and non-record ops: only the fact of answering Incomplete."""
+    if res.startswith('incomplete '):
+        toks = line.split(' ')
+        hdr = RECORD_HDR.get(toks[0])
+        nbytes = 0 if toks[-1] == '-' else len(toks[-1]) // 2
+        if hdr is None or nbytes < hdr:
+            return 'incomplete'
+    return proj_framing(res)
+
+
+proj_framing_line.wants_line = True
+
+
 def proj_class(res):
     return core.res_class(res)
 
@@ -101,7 +127,8 @@ def run_differential(ctx, cases, project, config='default', label=None, classify
                 ctx.violation('%s: %s (implementation: "%s")' % (ln[:100], v, ra[:200]),
                               {'lines': [ln], 'impl': ra, 'model': b, 'family': fam, 'class_oracle': v}, key='%s:%s' % (fam, ln[:80]))
                 continue
-        if project(ra) != project(b):
+        wl = getattr(project, 'wants_line', False)
+        if (project(ra, ln) if wl else project(ra)) != (project(b, ln) if wl else project(b)):
             ndis += 1
             ctx.cov['model_vs_impl_disagreements'] += 1
             if ndis <= 3:
